@@ -29,7 +29,31 @@ R15a  Every fix built by the capitalisation rules (``rules/capitalisation`` and 
       (every caller passes an attribute of the imported ``sqlfluffrs`` module) and
       recorded as an assumption in the evidence.
 
+      Spellings that are the same thing and are accepted as such (each has a QUIET self-test
+      variant and a breaking twin in the same spelling):
+        * the edited copy, the one-element list, a fix, or the ``fixes`` list bound to a local
+          first (a list only when that local has no other use); keyword arguments
+        * the anchor read through a local (``anchor = segment``): anchor/text agreement is
+          decided on the canonical chain (parameter or attribute chain the local holds)
+        * the pattern in a local / module constant, or compiled first
+          (``w = regex.compile(p); w.sub(f, x)``, no flags); the replacement as a nested or
+          module-level one-``return`` function instead of a lambda; ``m[k]`` for
+          ``m.group(k)``; an f-string of plain fields for a ``+`` concatenation
+        * if/elif chain, flat or nested, conditional expression, or a helper (own method,
+          module-level or nested function; positional or keyword arguments) returning the
+          re-cased text
+        * native path: the (index, text) pair unpacked in the loop header, in the loop body,
+          or in a comprehension clause
+
 R15b  (evidence only) crawler type sets and ``_exclude_*`` tuples of CP01–CP05.
+
+R15c  a child of the crawl target (loop variable, directly or through a local copy) reaches
+      ``_handle_segment`` only where ``is_type`` of comments / quoted literals / identifiers is
+      known false (``is_comment`` false, ``is_code`` true count as well).  Decided on
+      ``cfg.conditions`` with boolean locals opened (``skip = a or b; if skip: continue``), so
+      early ``continue``, nested ifs and De Morgan forms are the same test; the type names may
+      be constants or ``*T`` with ``T`` a tuple of constants (local, module constant,
+      ``self.T`` class attribute).
 """
 
 from __future__ import annotations
@@ -284,9 +308,39 @@ def _strip_casemaps(e: ast.AST) -> Tuple[ast.AST, int]:
 
 
 def _flatten_add(e: ast.AST) -> List[ast.AST]:
+    """Terms of a concatenation: ``a + b + c`` or the f-string ``f"{a}{b}{c}"`` (plain
+    replacement fields only; literal text between them is a term of its own)."""
     if isinstance(e, ast.BinOp) and isinstance(e.op, ast.Add):
         return _flatten_add(e.left) + _flatten_add(e.right)
+    if isinstance(e, ast.JoinedStr):
+        out: List[ast.AST] = []
+        for v in e.values:
+            if isinstance(v, ast.FormattedValue) and v.conversion == -1 and v.format_spec is None:
+                out += _flatten_add(v.value)
+            elif isinstance(v, ast.Constant) and v.value == "":
+                continue
+            else:
+                out.append(v)  # literal text, or a field with conversion / format spec
+        return out or [e]
     return [e]
+
+
+def _comp_binding(e: ast.Name):
+    """(iterable, enclosing comprehension) when the name is bound by a generator clause of an
+    enclosing comprehension (innermost visible binding), else None."""
+    child, p = e, getattr(e, "_parent", None)
+    while p is not None and not isinstance(p, FuncNode + (ast.Lambda, ast.ClassDef)):
+        if isinstance(p, (ast.ListComp, ast.SetComp, ast.GeneratorExp, ast.DictComp)):
+            gens = list(p.generators)
+            visible = len(gens)
+            for i, g in enumerate(gens):
+                if child is g and any(n is e for n in ast.walk(g.iter)):
+                    visible = i  # inside this clause's iterable: only earlier clauses bind
+            for g in reversed(gens[:visible]):
+                if any(isinstance(n, ast.Name) and n.id == e.id for n in ast.walk(g.target)):
+                    return g.iter, p
+        child, p = p, getattr(p, "_parent", None)
+    return None
 
 
 def _group_ref(e: ast.AST, m: str) -> Optional[int]:
@@ -408,6 +462,10 @@ def evalstr(ctx: Ctx, func, e: ast.AST, at, seen=None, defstmt=None) -> Val:
     module = func._module
     if isinstance(e, ast.Name):
         cfg = cfg_of(func)
+        cb = _comp_binding(e)
+        if cb is not None:
+            # comprehension variable: the same as the variable of a for loop over that iterable
+            return _for_value(ctx, func, cb[0], at, e)
         ds = cfg.reaching().defs_at(at, e.id) if at is not None else set()
         if not ds:
             return Val.base(e.id)  # global / builtin: external value
@@ -682,10 +740,14 @@ def run(chk) -> None:
             chk.count("R15a.builder_calls")
             a = arg_of(c, 0, "segment")
             r = arg_of(c, 1, "fixed_raw")
-            if not chk.require(a is not None and r is not None and isinstance(a, (ast.Name, ast.Attribute)), "R15a", c, "fix builder called with an anchor that is not a plain name/attribute (cannot relate it to the edited text)", detail=f"builder call shape: {short(c, 120)}"):
-                continue
             st = cfg_of(f).stmt_of(c)
-            v = evalstr(ctx, f, r, st)
+            v = evalstr(ctx, f, r, st) if r is not None else Val()
+            # the native extension's (leaf index, text) pairs: anchor and text are related by the
+            # recorded assumption, not by this analysis, so the anchor may be any expression
+            native_only = bool(v.external) and not v.tops and not v.bases and a is not None and r is not None
+            plain = a is not None and r is not None and isinstance(a, (ast.Name, ast.Attribute))
+            if not (native_only and not plain) and not chk.require(plain, "R15a", c, "fix builder called with an anchor that is not a plain name/attribute (cannot relate it to the edited text)", detail=f"builder call shape: {short(c, 120)}"):
+                continue
             a_c = _canon(f, a, st)  # what the anchor expression holds (a local alias of a parameter is that parameter)
             # pass-through override: def _get_fix(self, segment, fixed_raw): return super()._get_fix(segment, fixed_raw)
             if f.name == BUILDER and not v.tops and v.bases <= set(params) and len(v.bases) == 1 and _param_of(f, a, st) in params:
@@ -913,6 +975,12 @@ VARIANTS = [
         "QUIET", None, "R15a: regex pattern read through a local",
     ),
     Variant(
+        "quiet-pascal-pattern-compiled-in-local", CP01,
+        "            fixed_raw = regex.sub(\n                " + _WORD_RX + ",\n                lambda match: match.group(1) + match.group(2).upper() + match.group(3),\n",
+        "            word = regex.compile(" + _WORD_RX + ")\n            fixed_raw = word.sub(\n                lambda match: match.group(1) + match.group(2).upper() + match.group(3),\n",
+        "QUIET", None, "R15a: pattern compiled first, substitution through the compiled object",
+    ),
+    Variant(
         "quiet-camel-replacement-as-nested-def", CP01,
         "            fixed_raw = regex.sub(\n                " + _WORD_RX + ",\n                lambda match: match.group(1) + match.group(2).lower() + match.group(3),\n",
         "            def lower_first(word):\n                return word.group(1) + word.group(2).lower() + word.group(3)\n\n            fixed_raw = regex.sub(\n                " + _WORD_RX + ",\n                lower_first,\n",
@@ -923,6 +991,36 @@ VARIANTS = [
         "        if concrete_policy in [\"upper\", \"lower\", \"capitalise\"]:\n            if concrete_policy == \"upper\":\n                fixed_raw = fixed_raw.upper()\n            elif concrete_policy == \"lower\":\n                fixed_raw = fixed_raw.lower()\n            elif concrete_policy == \"capitalise\":\n                fixed_raw = fixed_raw.capitalize()\n        elif concrete_policy == \"pascal\":",
         "        if concrete_policy == \"upper\":\n            fixed_raw = segment.raw.upper()\n        elif concrete_policy == \"lower\":\n            fixed_raw = segment.raw.lower()\n        elif concrete_policy == \"capitalise\":\n            fixed_raw = segment.raw.capitalize()\n        elif concrete_policy == \"pascal\":",
         "QUIET", None, "R15a: nested membership test + chain flattened into one chain; initial value inlined",
+    ),
+    Variant(
+        "quiet-simple-policies-in-nested-helper", CP01,
+        "        if concrete_policy in [\"upper\", \"lower\", \"capitalise\"]:\n            if concrete_policy == \"upper\":\n                fixed_raw = fixed_raw.upper()\n            elif concrete_policy == \"lower\":\n                fixed_raw = fixed_raw.lower()\n            elif concrete_policy == \"capitalise\":\n                fixed_raw = fixed_raw.capitalize()\n",
+        "        def recased(raw: str) -> str:\n            if concrete_policy == \"upper\":\n                return raw.upper()\n            if concrete_policy == \"lower\":\n                return raw.lower()\n            return raw.capitalize()\n\n        if concrete_policy in [\"upper\", \"lower\", \"capitalise\"]:\n            fixed_raw = recased(fixed_raw)\n",
+        "QUIET", None, "R15a: the three simple policies extracted into a local function",
+    ),
+    Variant(
+        "quiet-simple-policies-as-conditional-expression", CP01,
+        "            if concrete_policy == \"upper\":\n                fixed_raw = fixed_raw.upper()\n            elif concrete_policy == \"lower\":\n                fixed_raw = fixed_raw.lower()\n            elif concrete_policy == \"capitalise\":\n                fixed_raw = fixed_raw.capitalize()\n",
+        "            fixed_raw = (\n                fixed_raw.upper()\n                if concrete_policy == \"upper\"\n                else fixed_raw.lower()\n                if concrete_policy == \"lower\"\n                else fixed_raw.capitalize()\n            )\n",
+        "QUIET", None, "R15a: if/elif chain as one conditional expression",
+    ),
+    Variant(
+        "quiet-pascal-replacement-as-fstring-with-subscripts", CP01,
+        "                lambda match: match.group(1) + match.group(2).upper() + match.group(3),\n",
+        "                lambda m: f\"{m[1]}{m[2].upper()}{m[3]}\",\n",
+        "QUIET", None, "R15a: concatenation respelled as an f-string over match[n]",
+    ),
+    Variant(
+        "quiet-fix-list-through-local", CP01,
+        "            return LintResult(\n                anchor=segment,\n                fixes=[self._get_fix(segment, fixed_raw)],\n                memory=memory,",
+        "            fixes = [self._get_fix(segment, fixed_raw)]\n            return LintResult(\n                anchor=segment,\n                fixes=fixes,\n                memory=memory,",
+        "QUIET", None, "R15a: the whole fixes list bound to a local",
+    ),
+    Variant(
+        "quiet-native-results-as-comprehension", CP01,
+        "        results: list[LintResult] = []\n        for leaf_idx, fixed_raw in violations:\n            segment = raw_segments[leaf_idx]\n            results.append(\n                LintResult(\n                    anchor=segment,\n                    fixes=[self._get_fix(segment, fixed_raw)],\n                    description=f\"{self._description_elem} must be {policy_text}\",\n                )\n            )\n        return results\n",
+        "        return [\n            LintResult(\n                anchor=raw_segments[leaf_idx],\n                fixes=[self._get_fix(raw_segments[leaf_idx], fixed_raw)],\n                description=f\"{self._description_elem} must be {policy_text}\",\n            )\n            for leaf_idx, fixed_raw in violations\n        ]\n",
+        "QUIET", None, "R15a: result loop of the native path respelled as a list comprehension",
     ),
     Variant(
         "quiet-native-loop-unpacks-in-body", CP01,
@@ -1019,5 +1117,90 @@ VARIANTS = [
         "        if context.segment.is_templated:\n            return [LintResult(memory=context.memory)]\n",
         "        if context.segment.is_templated:\n            return [LintResult(context.segment, [LintFix.delete(context.segment)], memory=context.memory)]\n",
         "R15a", "Rule_CP02._eval",
+    ),
+    # the same breakages written in the refactored spellings the QUIET variants above accept
+    Variant(
+        "pascal-local-pattern-consumes-text-outside-groups", CP01,
+        "            fixed_raw = regex.sub(\n                " + _WORD_RX + ",\n                lambda match: match.group(1) + match.group(2).upper() + match.group(3),\n",
+        "            word = " + _WORD_RX[:-1] + "_?\"\n            fixed_raw = regex.sub(\n                word,\n                lambda match: match.group(1) + match.group(2).upper() + match.group(3),\n",
+        "R15a", "concrete_policy == 'pascal'", "pattern read through a local is still judged",
+    ),
+    Variant(
+        "pascal-compiled-pattern-consumes-text-outside-groups", CP01,
+        "            fixed_raw = regex.sub(\n                " + _WORD_RX + ",\n                lambda match: match.group(1) + match.group(2).upper() + match.group(3),\n",
+        "            word = regex.compile(" + _WORD_RX[:-1] + "_?\")\n            fixed_raw = word.sub(\n                lambda match: match.group(1) + match.group(2).upper() + match.group(3),\n",
+        "R15a", "concrete_policy == 'pascal'", "compiled pattern in a local is still judged",
+    ),
+    Variant(
+        "camel-nested-def-reorders-groups", CP01,
+        "            fixed_raw = regex.sub(\n                " + _WORD_RX + ",\n                lambda match: match.group(1) + match.group(2).lower() + match.group(3),\n",
+        "            def lower_first(word):\n                return word.group(2).lower() + word.group(1) + word.group(3)\n\n            fixed_raw = regex.sub(\n                " + _WORD_RX + ",\n                lower_first,\n",
+        "R15a", "concrete_policy == 'camel'", "named replacement function is still judged",
+    ),
+    Variant(
+        "builder-local-list-gets-a-second-segment", CP01,
+        "        return LintFix.replace(segment, [segment.edit(fixed_raw)])\n",
+        "        edits = [segment.edit(fixed_raw)]\n        edits.append(segment)\n        return LintFix.replace(segment, edits)\n",
+        "R15a", "Rule_CP01._get_fix", "a list bound to a local is only accepted when nothing else touches it",
+    ),
+    Variant(
+        "builder-edits-another-segment-through-local", CP01,
+        "        return LintFix.replace(segment, [segment.edit(fixed_raw)])\n",
+        "        edited = segment.segments[0].edit(fixed_raw)\n        return LintFix.replace(segment, [edited])\n",
+        "R15a", "Rule_CP01._get_fix",
+    ),
+    Variant(
+        "anchor-local-holds-another-segment", CP01,
+        "            return LintResult(\n                anchor=segment,\n                fixes=[self._get_fix(segment, fixed_raw)],\n                memory=memory,",
+        "            anchor = context.segment\n            return LintResult(\n                anchor=anchor,\n                fixes=[self._get_fix(anchor, fixed_raw)],\n                memory=memory,",
+        "R15a", "anchor/text agreement",
+    ),
+    Variant(
+        "fix-local-not-built-by-builder", CP01,
+        "            return LintResult(\n                anchor=segment,\n                fixes=[self._get_fix(segment, fixed_raw)],\n                memory=memory,",
+        "            fix = LintFix(\"replace\", segment, [segment.edit(fixed_raw), segment])\n            return LintResult(\n                anchor=segment,\n                fixes=[fix],\n                memory=memory,",
+        "R15a", "_handle_segment",
+    ),
+    Variant(
+        "cp05-boolean-skip-local-loses-comment", CP05,
+        _CP05_SKIP,
+        "                skip = seg.is_type(\"symbol\", \"identifier\", \"quoted_literal\") or not seg.is_type(\"raw\")\n                if skip:\n                    continue\n",
+        "R15c", "CP05", "the test behind a boolean local is still judged",
+    ),
+    Variant(
+        "cp05-boolean-skip-local-tests-another-segment", CP05,
+        _CP05_SKIP,
+        "                skip = context.segment.is_type(\n                    \"symbol\", \"identifier\", \"quoted_literal\", \"comment\"\n                ) or not seg.is_type(\"raw\")\n                if skip:\n                    continue\n",
+        "R15c", "CP05",
+    ),
+    Variant(
+        "cp05-skip-tuple-loses-quoted-literal", CP05,
+        "            for seg in context.segment.segments:\n                # We don't want to edit symbols, quoted things, identifiers\n                # or comments if they appear.\n                if seg.is_type(\n                    \"symbol\", \"identifier\", \"quoted_literal\", \"comment\"\n                ) or not seg.is_type(\"raw\"):\n",
+        "            untouched = (\"symbol\", \"identifier\", \"comment\")\n            for seg in context.segment.segments:\n                if seg.is_type(*untouched) or not seg.is_type(\"raw\"):\n",
+        "R15c", "CP05",
+    ),
+    Variant(
+        "native-loop-body-unpacks-python-result", CP01,
+        "        for leaf_idx, fixed_raw in violations:\n            segment = raw_segments[leaf_idx]\n",
+        "        for found in self._python_violations(rs_tree, policy):\n            leaf_idx, fixed_raw = found\n            segment = raw_segments[leaf_idx]\n",
+        "R15a", "_eval_rust_capitalisation",
+    ),
+    Variant(
+        "pascal-fstring-replacement-inserts-literal", CP01,
+        "                lambda match: match.group(1) + match.group(2).upper() + match.group(3),\n",
+        "                lambda m: f\"{m[1]} {m[2].upper()}{m[3]}\",\n",
+        "R15a", "concrete_policy == 'pascal'", "f-string replacement is still judged term by term",
+    ),
+    Variant(
+        "pascal-fstring-replacement-pads-a-group", CP01,
+        "                lambda match: match.group(1) + match.group(2).upper() + match.group(3),\n",
+        "                lambda m: f\"{m[1]}{m[2].upper():>2}{m[3]}\",\n",
+        "R15a", "concrete_policy == 'pascal'", "a format spec on a field is not a case map",
+    ),
+    Variant(
+        "native-comprehension-over-python-result", CP01,
+        "        results: list[LintResult] = []\n        for leaf_idx, fixed_raw in violations:\n            segment = raw_segments[leaf_idx]\n            results.append(\n                LintResult(\n                    anchor=segment,\n                    fixes=[self._get_fix(segment, fixed_raw)],\n                    description=f\"{self._description_elem} must be {policy_text}\",\n                )\n            )\n        return results\n",
+        "        return [\n            LintResult(\n                anchor=raw_segments[leaf_idx],\n                fixes=[self._get_fix(raw_segments[leaf_idx], fixed_raw)],\n                description=f\"{self._description_elem} must be {policy_text}\",\n            )\n            for leaf_idx, fixed_raw in self._python_violations(rs_tree, policy)\n        ]\n",
+        "R15a", "_eval_rust_capitalisation",
     ),
 ]
